@@ -14,6 +14,11 @@ def plan(tier, prop):
                 if tier == "quick" and st in ("local_cache2",) and "chain" in sp["id"]:
                     continue
                 items.append((sp, ["eval_root", "eval_sub"], st, 2 if tier == "quick" else 3, {prop}, (False, ("inproc", "restart"))))
+                # revert histories (A, B, A) of a kept top-level node with nested keeps: depth 3 over the leaf's edit point only
+                sp3 = dict(sp, eps=[e for e in sp["eps"] if e["id"] == "V2"], id=sp["id"] + "/top")
+                if tier != "quick" or st in ("memory", "local"):
+                    items.append((sp3, ["top_n0"], st, 3, {prop}, True))
+                    items.append((sp3, ["top_n0", "eval_root"], st, 2, {prop}, (False, ("inproc", "restart"))))
         if tier != "quick":
             for sp in F.unit_programs("quick"):
                 if sp["key"].startswith(("var|type=int", "body|", "arg|kind=lit")):
